@@ -1080,11 +1080,14 @@ impl TDigestView<'_> {
         let first_mean = self.centroids[0].mean;
         if value < first_mean {
             if first_mean - self.min > 0. {
-                return Some(if value == self.min {
+                // A first centroid of weight 1 whose mean is above the minimum (possible once a
+                // digest read from a foreign image is updated) has no sample to spread between
+                // min and its mean: the rank stays at half a sample, as it is at both ends.
+                let half = self.centroids[0].weight() / 2.;
+                return Some(if value == self.min || half < 1. {
                     0.5 / centroids_weight
                 } else {
-                    (1. + (fraction_between(value, self.min, first_mean)
-                        * ((self.centroids[0].weight() / 2.) - 1.)))
+                    (1. + (fraction_between(value, self.min, first_mean) * (half - 1.)))
                         / centroids_weight
                 });
             }
@@ -1095,12 +1098,11 @@ impl TDigestView<'_> {
         let last_mean = self.centroids[num_centroids - 1].mean;
         if value > last_mean {
             if self.max - last_mean > 0. {
-                return Some(if value == self.max {
+                let half = self.centroids[num_centroids - 1].weight() / 2.;
+                return Some(if value == self.max || half < 1. {
                     1. - (0.5 / centroids_weight)
                 } else {
-                    1.0 - ((1.0
-                        + (fraction_between(value, self.max, last_mean)
-                            * ((self.centroids[num_centroids - 1].weight() / 2.) - 1.)))
+                    1.0 - ((1.0 + (fraction_between(value, self.max, last_mean) * (half - 1.)))
                         / centroids_weight)
                 });
             }
